@@ -18,7 +18,7 @@ ID = 'C07'
 KIND = 'explorer'
 LEVEL = 'model_checking'
 GRAPH = {'quick': 2, 'thorough': 4}
-BUDGET = {'quick': 120, 'thorough': 1200}
+BUDGET = {'quick': 900, 'thorough': 10800}
 RULE = ('daemon sockets are REAL CircusSockets (inet on 127.0.0.1 port 0, unix in a scratch directory, one so_reuseport set) inside the '
         'explorer process, workers are simulated; breadth-first search over canonical quiescent states with bursts of '
         '<= 1 event from {worker death, incr, decr, restart, reload, reload sequential, stop, start} at every loop-iteration '
@@ -39,6 +39,9 @@ def scenarios(tier):
         for ref in ('cmd', 'args'):
             out.append(Scenario('sock', sset=sset, tier=tier, ref=ref))
         out.append(Scenario('sock', sset=sset, tier=tier, ref='cmd', stdin=True))
+    # hooks around signals and stops that raise (their failures are ignored by default): what they leave behind must not
+    # change what the next generation of workers inherits
+    out.append(Scenario('sock', sset='inet+unix', tier=tier, ref='cmd', hooks='raise'))
     return out
 
 
@@ -112,6 +115,10 @@ def run(scn, ch):
         else:
             cmd, args = 'worker', ' '.join(refs)          # the references live in `args`, not in `cmd`
         extra = {'stdin_socket': SETS[scn.sset][0][0]} if scn.p.get('stdin') else {}
+        if scn.p.get('hooks') == 'raise':
+            def boom(watcher, arbiter, hook_name, **kw):
+                raise RuntimeError('hook backend is down')
+            extra['hooks'] = {h: (boom, False) for h in ('before_signal', 'after_signal', 'before_stop', 'after_stop')}
         world = World(ch, [WSpec('u', numprocesses=2, cmd=cmd, args=args, use_sockets=True, graceful_timeout=0.1, **extra),
                            WSpec('p', numprocesses=1, cmd='plain', graceful_timeout=0.1)], sockets=socks)
         world.kernel.fd_snapshot = fd_table
